@@ -132,7 +132,7 @@ EXPORT errno_t _getenv_s_chk(size_t *restrict len, char *restrict dest,
     if (unlikely(name == NULL)) {
         if (len)
             *len = 0;
-        if (likely(dest)) {
+        if (likely(dest && dmax)) {
             handle_error(dest, dmax, "getenv_s: name is null", ESNULLP);
         }
         else {
@@ -150,7 +150,7 @@ EXPORT errno_t _getenv_s_chk(size_t *restrict len, char *restrict dest,
 #endif
 
     if (buf == NULL) {
-        if (likely(dest)) {
+        if (likely(dest && dmax)) {
 #ifdef SAFECLIB_STR_NULL_SLACK
             memset(dest, 0, dmax);
 #else
@@ -163,10 +163,15 @@ EXPORT errno_t _getenv_s_chk(size_t *restrict len, char *restrict dest,
     }
 
     len1 = strlen(buf);
-    if (unlikely(dmax != 0 && len1 >= dmax)) {
+    if (unlikely(dest && len1 >= dmax)) {
         if (len)
             *len = 0;
-        handle_error(dest, dmax, "getenv_s: dmax is too small", ESNOSPC);
+        if (dmax) {
+            handle_error(dest, dmax, "getenv_s: dmax is too small", ESNOSPC);
+        } else { /* nothing of dest may be written */
+            invoke_safe_str_constraint_handler("getenv_s: dmax is too small",
+                                               NULL, ESNOSPC);
+        }
         return RCNEGATE(ESNOSPC);
     } else {
         if (len)
